@@ -800,7 +800,7 @@ func CheckC17(e *Env) (int, error) {
 		"lists_verified":                                 tot["lists_verified"],
 		"words_verified":                                 tot["words_verified"],
 		"canonical_lists_reproduced":                     tot["canonical_lists_reproduced"],
-		"faults_fired":                                   map[string]int{"prestate_longer": tot["prestate_longer"], "prestate_shorter": tot["prestate_shorter"], "prestate_junk": tot["prestate_junk"], "prestate_absent": tot["prestate_absent"], "prestate_symlink_relative": tot["prestate_symlink-rel"], "prestate_symlink_absolute": tot["prestate_symlink-abs"], "prestate_symlink_dangling": tot["prestate_symlink-dangling"], "fault_runs_no_verdict": tot["fault_runs_no_verdict"], "fault_runs_tool_failed": tot["fault_runs_tool_failed"]},
+		"faults_fired":                                   map[string]int{"prestate_longer": tot["prestate_longer"], "prestate_shorter": tot["prestate_shorter"], "prestate_junk": tot["prestate_junk"], "prestate_absent": tot["prestate_absent"], "prestate_symlink_relative": tot["prestate_symlink-rel"], "prestate_symlink_absolute": tot["prestate_symlink-abs"], "prestate_symlink_dangling": tot["prestate_symlink-dangling"], "fault_runs_no_verdict": tot["fault_runs_no_verdict"], "fault_runs_tool_failed": tot["fault_runs_tool_failed"], "runs_with_seeded_file_times": tot["runs_with_seeded_file_times"], "runs_with_targets_newer_than_upstream": tot["runs_with_targets_newer_than_upstream"], "runs_with_targets_older_than_upstream": tot["runs_with_targets_older_than_upstream"]},
 		"probes":                                         map[string]int{"truncation_needed_and_happened": tot["truncation_needed_and_happened"], "distinct_fetch_orders": len(firstLang), "runs_with_fragmented_bodies": tot["runs_with_fragmented_bodies"], "stray_leftover_files_of_a_killed_run": tot["stray_leftover_files"], "runs_with_a_file_over_64Ki_lines": scripts["runs_with_a_file_over_64Ki_lines"], "canonical_runs": scripts["canonical"]},
 		"map_ranges_rewritten":                           rep.MapRanges,
 		"uncontrolled_ranges":                            rep.OtherRanges,
